@@ -217,10 +217,26 @@ def run_sed(argv0, case, script, workdir, timeout, env):
             os.unlink(os.path.join(workdir, f))
         except OSError:
             pass
-    args = argv0 + (["-n"] if case["n"] else []) + ["-e", script]
-    rc, out, err = C.sh(args, timeout=timeout, cwd=workdir, input_=case["input"].encode("utf-8"), env=env)
+    args = argv0 + (["-n"] if case["n"] else [])
+    if case.get("via_f"):
+        # the script is delivered through a script file (-f) instead of the command line
+        with open(os.path.join(workdir, "script.sed"), "wb") as fh:
+            fh.write(script.encode("utf-8"))
+        args += ["-f", "script.sed"]
+    else:
+        args += ["-e", script]
+    data = case["input"].encode("utf-8")
+    if case.get("in_file"):
+        # the input is delivered as a file operand instead of stdin
+        with open(os.path.join(workdir, "input.txt"), "wb") as fh:
+            fh.write(data)
+        args += ["input.txt"]
+        data = b""
+    rc, out, err = C.sh(args, timeout=timeout, cwd=workdir, input_=data, env=env)
     files = {}
     for f in (os.listdir(workdir) if wf else []):
+        if f in ("script.sed", "input.txt"):
+            continue
         try:
             files[f] = open(os.path.join(workdir, f), "rb").read().decode("utf-8", "replace")
         except OSError:
@@ -252,6 +268,8 @@ def run_three(ctx, hawksed, cases, model=None, tag="w"):
 
 
 def status_class(rc, err):
+    # allocator_may_return_null: a refused huge allocation is announced by a WARNING, it is not a report
+    err = "\n".join(l for l in err.split("\n") if "WARNING: AddressSanitizer failed to allocate" not in l)
     st = C.classify_rc(rc, err)
     if st.startswith("EXIT"):
         return "fail"
@@ -268,15 +286,24 @@ LINE_CH = "aabb" + "abc x" + "é世"
 LABELS = ["a", "b", "L1", "end"]
 
 
-def gen_input(rng):
+def gen_input(rng, profile=None):
     n = rng.choice([0, 1, 1, 2, 2, 3, 3, 4, 5, 6])
+    if profile in ("flag", "hold"):
+        n = rng.choice([1, 2, 2, 3, 3, 4, 5])
     lines = []
     for _ in range(n):
         k = rng.choice([0, 1, 1, 2, 2, 3, 4])
+        if profile == "hold":
+            k = rng.choice([1, 1, 1, 2, 2, 3])
+        elif profile == "flag":
+            k = rng.choice([1, 1, 2, 2, 3])
         pool = LINE_CH if rng.random() < 0.25 else "aabbc"
+        if profile == "flag":
+            pool = "aab"
         lines.append("".join(rng.choice(pool) for _ in range(k)))
     s = "\n".join(lines)
-    if n and (rng.random() < 0.75 or lines[-1] == ""):
+    p_term = 0.4 if profile == "hold" else 0.75
+    if n and (rng.random() < p_term or lines[-1] == ""):
         s += "\n"
     return s
 
@@ -329,8 +356,47 @@ def gen_rpl(rng, re_):
     return pieces
 
 
+def gen_profile_cmd(rng, st):
+    """weight profiles (a generator dimension, chosen per case): the same command set, other proportions.
+    'hold': buffer traffic (G H h g x, printing) around substitutions that DELETE text, often addressed to `$` / `$!`;
+    'flag': the `t` flag's life: substitutions that succeed or fail, line reads by n / N, t / b;
+    'long': many cheap commands per cycle (queues and tables that grow per cycle)."""
+    prof = st.get("profile")
+    lit = lambda t: [("lit", ch) for ch in t]
+    if prof == "hold":
+        a1 = rng.choice([None, None, None, ("$",), ("$",), ("L", 1), ("L", 2)])
+        neg = a1 is not None and rng.random() < 0.35
+        k = rng.random()
+        if k < 0.35:
+            r = rng.choice([".*", ".*", ".*", "a", "b", ".", "a*", "[ab]*", "^.", "b*", ".$", "^"])
+            st["have_re"] = True
+            return cmd("s", a1, None, neg, re=r, rpl=lit(rng.choice(["", "", "", "", "Z", "-"])), g=rng.random() < 0.4, occ=0, p=rng.random() < 0.15, w=None)
+        return cmd(rng.choice(["G", "G", "H", "H", "h", "g", "x", "x", "p", "P", "d", "N", "l", "="]), a1, None, neg)
+    if prof == "flag":
+        a1 = rng.choice([None, None, None, None, ("$",), ("L", 1), ("L", 2)])
+        neg = a1 is not None and rng.random() < 0.4
+        k = rng.random()
+        if k < 0.45:
+            r = rng.choice(["a", "b", ".", "^", "$", "zz", "x", "a*", "\\n"])
+            st["have_re"] = True
+            return cmd("s", a1, None, neg, re=r, rpl=lit(rng.choice(["x", "y", "", "!", "-"])), g=rng.random() < 0.2, occ=0, p=False, w=None)
+        return cmd(rng.choice(["N", "N", "n", "n", "x", "G", "D", "p", "P"]), a1, None, neg)
+    # long: one dominant command repeated many times within a cycle, a few others in between
+    a1 = rng.choice([None, None, None, None, ("L", 1), ("L", 2), ("$",), ("R", "a")])
+    dom = st["dominant"] if rng.random() < 0.8 else rng.choice(["a", "i", "p", "s", "=", "x", "h", "P"])
+    if dom in ("a", "i"):
+        return cmd(dom, a1, None, False, text=rng.choice(["A%d\n" % rng.randrange(100), "X\n"]))
+    if dom == "s":
+        return cmd("s", a1, None, False, re=rng.choice(["a", "b", "$", "^"]), rpl=lit(rng.choice(["x", "ab", "b"])), g=False, occ=0, p=rng.random() < 0.3, w=None)
+    if dom == "w":
+        return cmd("w", a1, None, False, file=rng.choice(["w1", "w2"]))
+    return cmd(dom, a1, None, False)
+
+
 def gen_simple_cmd(rng, st):
     """one non-structural command (no labels, blocks, branches)"""
+    if st.get("profile") and rng.random() < (1.0 if st["profile"] == "long" else 0.75):
+        return gen_profile_cmd(rng, st)
     a1, a2 = gen_addrs(rng, st)
     neg = a1 is not None and rng.random() < 0.18
     k = rng.random()
@@ -359,23 +425,25 @@ def gen_body(rng, st, n, depth):
     out = []
     while len(out) < n:
         k = rng.random()
-        if k < 0.10 and depth < 2:
+        if k < 0.10 and depth < 2 and st.get("profile") != "long":
             a1, a2 = gen_addrs(rng, st)
             neg = a1 is not None and rng.random() < 0.2
             out.append(cmd("{", a1, a2, neg))
             out += gen_body(rng, st, rng.randrange(1, 4), depth + 1)
             out.append(cmd("}"))
-        elif k < 0.18:
+        elif k < (0.34 if st.get("profile") == "flag" else 0.18) and st.get("profile") != "long":
             # forward branch over a few commands
             lab = "f%d" % st["nlab"]; st["nlab"] += 1
             a1, a2 = gen_addrs(rng, st)
+            if st.get("profile") == "flag" and rng.random() < 0.7:
+                a1, a2 = None, None
             neg = a1 is not None and rng.random() < 0.2
             target = lab if rng.random() < 0.7 else None
-            out.append(cmd(rng.choice("bt"), a1, a2, neg, label=target))
+            out.append(cmd(rng.choice("btt" if st.get("profile") == "flag" else "bt"), a1, a2, neg, label=target))
             out += gen_body(rng, st, rng.randrange(1, 3), depth)
             if target is not None:
                 out.append(cmd("lab", name=lab))
-        elif k < 0.22 and not st["loop"]:
+        elif k < 0.22 and not st["loop"] and not st.get("profile"):
             st["loop"] = True
             lab = "l%d" % st["nlab"]; st["nlab"] += 1
             kind = rng.random()
@@ -408,10 +476,70 @@ def gen_body(rng, st, n, depth):
 
 
 def gen_case(rng):
-    st = dict(have_re=False, nlab=0, loop=False)
-    cmds = gen_body(rng, st, rng.choice([1, 1, 2, 2, 3, 3, 4, 5, 6]), 0)
+    k = rng.random()
+    profile = "hold" if k < 0.14 else "flag" if k < 0.28 else "long" if k < 0.31 else None
+    st = dict(have_re=False, nlab=0, loop=False, profile=profile)
+    ncmd = rng.choice([1, 1, 2, 2, 3, 3, 4, 5, 6])
+    if profile == "hold":
+        ncmd = rng.choice([3, 4, 4, 5, 6, 7])
+    elif profile == "long":
+        st["dominant"] = rng.choice(["a", "a", "i", "p", "s", "=", "w", "G", "H"])
+        ncmd = rng.randrange(8, 14) if st["dominant"] in "GH" else rng.randrange(17, 60)
+    if profile == "flag":
+        # one or two `t` probes: some flag-relevant commands, then `t L`, commands with a visible effect, `:L`
+        cmds = []
+        for _ in range(rng.choice([1, 1, 2])):
+            cmds += gen_body(rng, st, rng.choice([1, 2, 2, 3, 4]), 0)
+            lab = "p%d" % st["nlab"]; st["nlab"] += 1
+            a1 = rng.choice([None, None, None, ("$",), ("L", 2)])
+            cmds.append(cmd("t", a1, None, a1 is not None and rng.random() < 0.4, label=lab if rng.random() < 0.8 else None))
+            vis = rng.choice(["s", "s", "p", "i", "="])
+            if vis == "s":
+                cmds.append(cmd("s", re="$", rpl=[("lit", "!")], g=False, occ=0, p=False, w=None))
+            elif vis == "i":
+                cmds.append(cmd("i", text="T\n"))
+            else:
+                cmds.append(cmd(vis))
+            cmds.append(cmd("lab", name=lab))
+    elif profile == "hold":
+        # buffer probe: some commands, a substitution that deletes text, then buffer traffic, then some more
+        lit = lambda t: [("lit", ch) for ch in t]
+        cmds = gen_body(rng, st, rng.choice([0, 1, 1, 2]), 0)
+        a1 = rng.choice([None, None, ("$",), ("$",), ("L", 1)])
+        cmds.append(cmd("s", a1, None, a1 is not None and rng.random() < 0.25, re=rng.choice([".*", ".*", "a", "b", ".", "[ab]*", "^.*$"]),
+                        rpl=lit(rng.choice(["", "", "", "Z"])), g=rng.random() < 0.3, occ=0, p=False, w=None))
+        st["have_re"] = True
+        for _ in range(rng.choice([1, 2, 2, 3])):
+            a1 = rng.choice([None, None, None, ("$",), ("$",), ("L", 1)])
+            cmds.append(cmd(rng.choice(["G", "G", "H", "H", "x", "h", "g"]), a1, None, a1 is not None and rng.random() < 0.3))
+        cmds += gen_body(rng, st, rng.choice([0, 0, 1, 2]), 0)
+    else:
+        cmds = gen_body(rng, st, ncmd, 0)
     seps = [";" if rng.random() < 0.3 and (c["op"] in SIMPLE or (c["op"] in "sy" and c.get("w") is None)) else "\n" for c in cmds]
-    return dict(n=rng.random() < 0.3, input=gen_input(rng), cmds=cmds, seps=seps)
+    return dict(n=rng.random() < (0.15 if profile else 0.3), input=gen_input(rng, profile), cmds=cmds, seps=seps,
+                via_f=rng.random() < 0.25, in_file=rng.random() < 0.15, profile=profile)
+
+
+def flag_probes(quick):
+    """exhaustive part for the `t` flag: every sequence of 2 and of 3 commands over a small alphabet of flag-relevant
+    commands (s that succeeds, s that fails, line reads by n / N / $!N, a taken-or-not t, x), followed by the probe
+    `t e; s/$/!/; :e` whose effect (a `!` at the end of the pattern space or not) shows the flag."""
+    lit = lambda t: [("lit", ch) for ch in t]
+    S = lambda re_, rpl: cmd("s", re=re_, rpl=lit(rpl), g=False, occ=0, p=False, w=None)
+    alpha = [lambda: S("a", "x"), lambda: S("zz", "y"), lambda: cmd("N"), lambda: cmd("n"), lambda: cmd("N", ("$",), None, True),
+             lambda: cmd("t"), lambda: cmd("x")]
+    probe = lambda: [cmd("t", label="e"), S("$", "!"), cmd("lab", name="e")]
+    inputs = ["a\nb\na\nab\n", "ab\na"]
+    out = []
+    import itertools
+    for seq in itertools.product(range(len(alpha)), repeat=2):
+        for inp in inputs:
+            out.append(dict(n=False, input=inp, cmds=[alpha[i]() for i in seq] + probe(), seps=None))
+    for j, seq in enumerate(itertools.product(range(len(alpha)), repeat=3)):
+        if quick and j % 2:
+            continue
+        out.append(dict(n=False, input=inputs[j % 2 if not quick else (j // 2) % 2], cmds=[alpha[i]() for i in seq] + probe(), seps=None))
+    return out
 
 
 def atom_cmds():
@@ -427,6 +555,7 @@ def atom_cmds():
         S("a", lit("x")), S("a*", lit("-"), g=True), S("b", [("amp",), ("amp",)], occ=2), S("", lit("E")), S("\\n", lit("+"), p=True),
         cmd("y", src="ab", dst="ba"), cmd("a", text="A\n"), cmd("i", L(2), text="I\n"), cmd("c", L(2), L(3), text="C\n"),
         cmd("p", L(2), L(3)), cmd("p", R("a"), R("b")), cmd("d", R("b"), L(2), True), cmd("t"), cmd("b"), cmd("p", L(3), L(1)),
+        S(".*", lit("")), S("a", lit(""), a1=("$",)), cmd("G", ("$",)), cmd("x", ("$",)),
     ]
 
 
@@ -437,7 +566,7 @@ UNSPEC_TEXT = {
     "1": "numeric first address of a range never evaluated on its own line (skipped by n/N/d/branch): GNU opens the range on a later line, POSIX has no such rule",
     "2": "`l` on a non-printable / multibyte character or an embedded newline (outside 'short printable lines')",
     "3": "`w` file receiving text after an unterminated last line",
-    "4": "unterminated last line emptied or made to end in a newline by s/y (indistinguishable from a terminated line in hawk-sed's buffers)",
+    "4": "unterminated last line emptied or made to end in a newline by s/y (indistinguishable from a terminated line in hawk-sed's buffers); judged all the same whenever GNU sed and the reference executor agree",
     "5": "q while the output ends in the unterminated last line (GNU sed appends the missing newline when quitting)",
     "6": "a two-address command evaluated twice on the same input line (D restart / backward branch): GNU never re-opens a numeric-addr1 range and checks `$` differently",
     "g": "s with both N and g flags (POSIX: unspecified)",
@@ -445,9 +574,31 @@ UNSPEC_TEXT = {
 }
 
 
-NULLABLE = {"", "a*", "b*", "^", "$", "^$", "^b*$", ".*", "[^b]*"}
+_NULLABLE = {}
 
 
+def nullable(bre):
+    """can this BRE (generator subset) match the empty string?  (unknown syntax counts as yes)"""
+    if bre not in _NULLABLE:
+        import re as _re
+        py, i = "", 0
+        while i < len(bre):
+            ch = bre[i]
+            if ch == "\\" and i + 1 < len(bre):
+                nx = bre[i + 1]
+                py += {"(": "(", ")": ")", "n": "\n"}.get(nx, _re.escape(nx))
+                i += 2
+                continue
+            py += "\\" + ch if ch in "+?{}|()" else ch
+            i += 1
+        try:
+            _NULLABLE[bre] = bre == "" or _re.fullmatch(py, "") is not None
+        except _re.error:
+            _NULLABLE[bre] = True
+    return _NULLABLE[bre]
+
+
+# NOTE: a marked case is excluded from the reference comparison only if GNU sed and the reference executor disagree on it
 def static_unspec(case):
     marks = ""
     text = case["input"]
@@ -455,7 +606,7 @@ def static_unspec(case):
         if c["op"] == "s" and c["g"] and c["occ"]:
             marks += "g"
         text += c.get("text", "") + c.get("dst", "") + "".join(p[1] for p in c.get("rpl", []) if p[0] == "lit")
-    if any(ord(ch) > 127 for ch in text) and any(c["op"] == "s" and c["re"] in NULLABLE for c in case["cmds"]):
+    if any(ord(ch) > 127 for ch in text) and any(c["op"] == "s" and nullable(c["re"]) for c in case["cmds"]):
         marks += "m"
     return marks
 
@@ -482,13 +633,16 @@ def oracle(r):
     """PROPERTY ORACLE on the real code, independent of the Lean model's output: hawk-sed's stdout, exit class and
     w-files must equal those of the reference sed (GNU sed --posix) and no run may end in a sanitizer report or
     signal, or hang where the reference terminates.  Cases in a POSIX-unspecified situation (markers) are not
-    judged against the reference (memory safety still is).  Returns a message or None."""
+    judged against the reference when the reference sed deviates there from the reference executor (memory safety
+    still is; if the two references agree the case is judged like any other).  Returns a message or None."""
     h = obs(*r["hawk"])
     g = obs(*r["gnu"])
     if h[0] in ("ASAN", "UBSAN") or h[0].startswith("SIGNAL"):
         return "hawk-sed ended with %s" % h[0]
     marks = static_unspec(r["case"]) + r["model"].get("unspec", "")
-    if marks:
+    if marks and g != obs_model(r["model"], r["case"]):
+        # a POSIX-unspecified situation in which the reference sed really goes its own way (it differs from the
+        # reference executor): not judged.  Where reference sed and reference executor agree the case IS judged.
         return None
     if r["model"]["status"] == "fuel" and h[0] in ("TIMEOUT(hang)", "fail") and g[0] in ("TIMEOUT(hang)", "fail"):
         return None       # a loop: killed after the time budget or dead of memory exhaustion, on both sides
@@ -503,10 +657,25 @@ def oracle(r):
     return None
 
 
-def corr(r):
-    """correspondence of the Lean model with the real code (and, inside the specified domain, with the reference)"""
+def sig_vs(case, h, ref):
+    """signature of a recorded-finding class: how hawk-sed's observation `h` deviates from a reference observation"""
+    if h[0] == "ok" and ref[0] == "ok":
+        ops = [c["op"] for c in case["cmds"]]
+        if "N" in ops and h[2] == ref[2] and h[1].startswith(ref[1]) and len(h[1]) > len(ref[1]) and not case["n"]:
+            return "N-eof-print"
+        if case["input"] and not case["input"].endswith("\n") and h[1].replace("\n", "") == ref[1].replace("\n", ""):
+            return "unterminated-last-line"
+    return None
+
+
+def corr(r, known=()):
+    """correspondence of the Lean model with the real code (and, inside the specified domain, with the reference).
+    The model follows the REPAIRED behaviour: a deviation that carries the signature of a finding recorded in
+    KNOWN_FINDINGS.txt (`known`) is that finding again, not a broken correspondence."""
     h = obs(*r["hawk"])
     m = obs_model(r["model"], r["case"])
+    if h != m and sig_vs(r["case"], h, m) in known:
+        return None
     if r["model"]["status"].startswith("bad"):
         return "driver could not run the case: " + r["model"]["status"]
     if r["model"]["status"] == "fuel":
@@ -523,14 +692,7 @@ def corr(r):
 
 def classify_sig(r):
     """narrow signatures for classes that are candidates for KNOWN_FINDINGS (only used when listed there)"""
-    case, h, g = r["case"], obs(*r["hawk"]), obs(*r["gnu"])
-    if h[0] == "ok" and g[0] == "ok":
-        ops = [c["op"] for c in case["cmds"]]
-        if "N" in ops and h[2] == g[2] and h[1].startswith(g[1]) and len(h[1]) > len(g[1]) and not case["n"]:
-            return "N-eof-print"
-        if case["input"] and not case["input"].endswith("\n") and h[1].replace("\n", "") == g[1].replace("\n", ""):
-            return "unterminated-last-line"
-    return None
+    return sig_vs(r["case"], obs(*r["hawk"]), obs(*r["gnu"]))
 
 
 def case_text(r, why):
@@ -543,7 +705,9 @@ def case_text(r, why):
         t += "# %-5s rc=%s stdout=%r files=%r stderr=%r\n" % (name, rc, out[:400], files, err[:300])
     m = r["model"]
     t += "# model status=%s stdout=%r files=%r unspec=%r\n" % (m["status"], m["out"][:400], m["files"], m["unspec"])
-    t += "CASE " + json.dumps(dict(n=case["n"], input=case["input"], cmds=case["cmds"], seps=case.get("seps"))) + "\n"
+    t += "# delivery: script %s, input %s\n" % ("-f FILE" if case.get("via_f") else "-e", "file operand" if case.get("in_file") else "stdin")
+    t += "CASE " + json.dumps(dict(n=case["n"], input=case["input"], cmds=case["cmds"], seps=case.get("seps"),
+                                   via_f=bool(case.get("via_f")), in_file=bool(case.get("in_file")))) + "\n"
     return t
 
 
@@ -552,7 +716,7 @@ def shrink(ctx, hawksed, r, pred):
     case = r["case"]
 
     def run1(cmds, inp):
-        c = dict(n=case["n"], input=inp, cmds=cmds, seps=None)
+        c = dict(n=case["n"], input=inp, cmds=cmds, seps=None, via_f=case.get("via_f"), in_file=case.get("in_file"))
         try:
             return run_three(ctx, hawksed, [c], tag="s")[0]
         except Exception:
@@ -622,13 +786,20 @@ def safety_half(ctx, hawksed, seeds, n):
     jobs = []
     for i in range(n):
         s = rng.choice(seeds)
-        jobs.append((mutate(rng, s), rng.choice(inputs), rng.random() < 0.3, rng.random() < 0.1))
+        jobs.append((mutate(rng, s), rng.choice(inputs), rng.random() < 0.3, rng.random() < 0.1, rng.random() < 0.25))
     wd = os.path.join(ctx.scratch, "mut")
     os.makedirs(wd, exist_ok=True)
 
     def one(j):
-        script, inp, quiet, ext = j
-        args = [hawksed.encode()] + ([b"-n"] if quiet else []) + ([b"-r"] if ext else []) + [b"-e", script]
+        script, inp, quiet, ext, via_f = j
+        if via_f:
+            fn = "m%d.sed" % threading.get_ident()
+            with open(os.path.join(wd, fn), "wb") as fh:
+                fh.write(script)
+            deliver = [b"-f", fn.encode()]
+        else:
+            deliver = [b"-e", script]
+        args = [hawksed.encode()] + ([b"-n"] if quiet else []) + ([b"-r"] if ext else []) + deliver
         rc, out, err = C.sh(args, timeout=T_RUN, cwd=wd, input_=inp, env=HENV)
         return status_class(rc, err.decode("utf-8", "replace")), err.decode("utf-8", "replace")
     classes = {}
@@ -639,17 +810,17 @@ def safety_half(ctx, hawksed, seeds, n):
             if (cl in ("ASAN", "UBSAN") or cl.startswith("SIGNAL")) and bad is None:
                 bad = (j, cl, err)
     if bad is not None:
-        (script, inp, quiet, ext), cl, err = bad
+        (script, inp, quiet, ext, via_f), cl, err = bad
         # shrink the script bytes
         def fails(bs):
-            c2, _ = one((bytes(bs), inp, quiet, ext))
+            c2, _ = one((bytes(bs), inp, quiet, ext, via_f))
             return c2 == cl
         small = bytes(C.ddmin(list(script), fails, max_tests=150))
         if not fails(small):
             small = script
         ctx.problem("impl", "hawk-sed ends with %s on a (mutated) script: %r" % (cl, small[:120]),
-                    "# hawk-sed %s%s-e <script> ; stdin = %r\nSCRIPT-BYTES %s\n# stderr:\n%s\n" % (
-                        "-n " if quiet else "", "-r " if ext else "", inp, json.dumps(list(small)), err[-2500:]),
+                    "# hawk-sed %s%s%s <script> ; stdin = %r\nSCRIPT-BYTES %s\n# stderr:\n%s\n" % (
+                        "-n " if quiet else "", "-r " if ext else "", "-f" if via_f else "-e", inp, json.dumps(list(small)), err[-2500:]),
                     found_input=True)
     return classes
 
@@ -753,15 +924,18 @@ def run(ctx):
     for i, x in enumerate(atoms):
         for j, y in enumerate(atoms):
             for k, inp in enumerate(ex_inputs):
-                if quick and (i + j) % 2 != k:
-                    continue        # quick tier: each pair on one of the two inputs
                 cases.append(dict(n=False, input=inp, cmds=[x, y], seps=None))
+    cases += flag_probes(quick)
+    for idx, c in enumerate(cases[ncorpus:]):
+        # delivery dimensions spread over the exhaustive part
+        c["via_f"] = idx % 4 == 0
+        c["in_file"] = idx % 7 == 0
     nex = len(cases) - ncorpus
     if not quick:
         for _ in range(8000):
             cases.append(dict(n=rng.random() < 0.3, input=rng.choice(ex_inputs + ["a\n", "b\na\nb\na\nb\n"]),
                               cmds=[rng.choice(atoms) for _ in range(3)], seps=None))
-    nrand = 1800 if quick else 50000
+    nrand = 1500 if quick else 50000
     for _ in range(nrand):
         cases.append(gen_case(rng))
     t1 = time.time()
@@ -797,17 +971,20 @@ def run(ctx):
             break
 
     # ---- phase 2: correspondence with the Lean model ------------------------------------------
-    cbad = [(i, corr(r)) for i, r in enumerate(res)]
+    known = set(k for k, _ in C.known_findings(ctx.id))
+    cbad = [(i, corr(r, known)) for i, r in enumerate(res)]
     cbad = [(i, w) for i, w in cbad if w is not None and oracle(res[i]) is None]
-    if cbad and not hits:
+    # (skipped only when the oracle produced a real violation; recorded findings do not switch it off)
+    if cbad and not any(p["sig"] not in known for p in ctx.problems):
         i, why = cbad[0]
         rr = run_three(ctx, hawksed, [res[i]["case"]], tag="c")[0]
-        if corr(rr) is not None:
-            small = shrink(ctx, hawksed, rr, lambda x: corr(x) if oracle(x) is None else None)
+        if corr(rr, known) is not None:
+            corrk = lambda x: corr(x, known)
+            small = shrink(ctx, hawksed, rr, lambda x: corrk(x) if oracle(x) is None else None)
             ctx.problem("corr", "the Lean reference executor (HawkModel.Sed, about which range_spec, subst_occurrence, hold-space algebra, "
                         "exec_total, frame lemmas are proved) no longer corresponds to the code: %s | script %r input %r (%d cases differ)" % (
-                            corr(small) or why, small["script"][:160], small["case"]["input"][:80], len(cbad)),
-                        case_text(small, corr(small) or why), found_input=False)
+                            corr(small, known) or why, small["script"][:160], small["case"]["input"][:80], len(cbad)),
+                        case_text(small, corr(small, known) or why), found_input=False)
 
     # ---- safety half ---------------------------------------------------------------------------
     seeds = [r["script"].encode("utf-8") for r in res if not wfiles_of(r["case"])][:4000]
@@ -830,16 +1007,24 @@ def run(ctx):
         feat["multibyte"] += any(ord(ch) > 127 for ch in case["input"])
         feat["quiet"] += bool(case["n"])
         feat["empty_input"] += case["input"] == ""
-    mstat, unspec = {}, {}
+        feat["script_via_-f"] = feat.get("script_via_-f", 0) + bool(case.get("via_f"))
+        feat["input_as_file_operand"] = feat.get("input_as_file_operand", 0) + bool(case.get("in_file"))
+        if case.get("profile"):
+            feat["profile_" + case["profile"]] = feat.get("profile_" + case["profile"], 0) + 1
+        feat["max_commands_in_a_script"] = max(feat.get("max_commands_in_a_script", 0), len(case["cmds"]))
+    mstat, unspec, marked = {}, {}, {}
     for r in res:
         mstat[r["model"]["status"]] = mstat.get(r["model"]["status"], 0) + 1
-        for ch in set(static_unspec(r["case"]) + r["model"].get("unspec", "")):
-            unspec[ch] = unspec.get(ch, 0) + 1
+        marks = set(static_unspec(r["case"]) + r["model"].get("unspec", ""))
+        for ch in marks:
+            marked[ch] = marked.get(ch, 0) + 1
+            if obs(*r["gnu"]) != obs_model(r["model"], r["case"]):
+                unspec[ch] = unspec.get(ch, 0) + 1
     nontriv = len({(r["script"], r["case"]["input"], r["case"]["n"]) for r in res if nontrivial(r)})
     samples = [("%r on %r%s" % (r["script"], r["case"]["input"], " -n" if r["case"]["n"] else ""))[:200] for r in res[-3:]] + \
               [("%r on %r" % (res[len(res) // 2]["script"], res[len(res) // 2]["case"]["input"]))[:200]]
     return C.finish(ctx, [proof], len(res) * 3 + nmut + nmod, nontriv,
-                    "cases = corpus + all ordered pairs over a %d-command alphabet x 2 inputs + seeded random scripts (commands s[g N p w] p d D n N g G h H x y a i c q = l b t "
+                    "cases = corpus + all ordered pairs over a %d-command alphabet x 2 inputs + all 2- and 3-command sequences over a 7-command `t`-flag alphabet followed by a t probe + seeded random scripts in four weight profiles (default / hold-space traffic around deleting substitutions on unterminated input / `t`-flag probes around s, n, N / long scripts with one dominant command), scripts delivered by -e or -f FILE, input by stdin or file operand (commands s[g N p w] p d D n N g G h H x y a i c q = l b t "
                     "labels blocks ! ; line/regex/$ addresses and ranges; -n) x inputs of 0-6 lines (with/without trailing newline, empty lines, multibyte); every case is run through hawk-sed "
                     "(ASan build of the working tree), the Lean model and GNU sed --posix; stdout, exit class and w-files compared; + byte-mutated scripts (outcome class only) "
                     "+ sed::str_to_str vs CLI; distinct_nontrivial = distinct (script,input,-n) whose script has a range / s with g or N>1 / hold-space command / n N D / branch and whose output differs from the input" % len(atoms),
@@ -847,6 +1032,7 @@ def run(ctx):
                     extra_cov=dict(op_distribution=opdist, features=feat, model_status=mstat, cases=len(res), corpus_cases=ncorpus, exhaustive_cases=nex,
                                    mutants=nmut, mutant_outcome_classes=mclasses, modsed_cases=nmod,
                                    excluded_from_reference_comparison=dict((UNSPEC_TEXT[k], v) for k, v in unspec.items()),
+                                   marked_unspecified_but_judged_because_references_agree=dict((k, marked[k] - unspec.get(k, 0)) for k in marked),
                                    intentional_divergences_not_generated=[
                                        "a/i/c text with backslash escapes other than \\\\ and \\newline (GNU expands \\t even with --posix; hawk-sed follows POSIX: the character itself)",
                                        "empty a/i/c text", "multiple '!'", "two addresses on a i = q (POSIX allows one; hawk-sed rejects them only with -a)", "two addresses on l (POSIX allows them, GNU sed --posix rejects them)", "the I modifier, first~step / addr,+N / addr,~N (need hawk-sed -b; rejected by sed --posix)",
@@ -876,8 +1062,11 @@ def replay(ctx, path):
         elif l.startswith("SCRIPT-BYTES "):
             script = bytes(json.loads(l[len("SCRIPT-BYTES "):]))
             for inp in (b"a\nb\nab\n", b"ab\n\nba", b"", b"\xc3\xa9a\n" + b"a" * 300 + b"\nb\n"):
-                for extra in ([], [b"-n"], [b"-r"]):
-                    rc, out, err = C.sh([hawksed.encode()] + extra + [b"-e", script], timeout=T_RUN, input_=inp, env=C.ASAN_ENV, cwd=ctx.scratch)
+                with open(os.path.join(ctx.scratch, "replay.sed"), "wb") as fh:
+                    fh.write(script)
+                for extra in ([], [b"-n"], [b"-r"], [b"-F"]):
+                    deliver = [b"-f", b"replay.sed"] if extra == [b"-F"] else extra + [b"-e", script]
+                    rc, out, err = C.sh([hawksed.encode()] + deliver, timeout=T_RUN, input_=inp, env=C.ASAN_ENV, cwd=ctx.scratch)
                     cl = status_class(rc, err.decode("utf-8", "replace"))
                     if cl in ("ASAN", "UBSAN") or cl.startswith("SIGNAL"):
                         print("script %r input %r %s -> %s\n%s" % (script, inp, extra, cl, err.decode("utf-8", "replace")[-1500:]))
